@@ -377,4 +377,21 @@ def lookupLines (env : Env) (lines : List Line) (hostname : String) : Except Err
   | .error e => .error e
   | .ok blocks => lookup env blocks hostname
 
+/-! ## several lookups on one `SSHConfig` object
+
+The object is its `_config` list.  `lookup` builds its result in fresh dicts and writes nothing to the object —
+also when it raises (canonicalisation, `Match exec`). -/
+
+/-- one `lookup(hostname)` on the object: (object afterwards, result or the error it raised) -/
+def lookupStep (env : Env) (blocks : List Block) (hostname : String) : List Block × Except Err Dict :=
+  (blocks, lookup env blocks hostname)
+
+/-- a history of lookups on the same object -/
+def lookupSession (env : Env) : List Block → List String → List Block × List (Except Err Dict)
+  | blocks, [] => (blocks, [])
+  | blocks, h :: hs =>
+    let s := lookupStep env blocks h
+    let rest := lookupSession env s.1 hs
+    (rest.1, s.2 :: rest.2)
+
 end PV.Config
